@@ -659,6 +659,44 @@ func runC09(c *h.Ctx) {
 			}
 		}
 	}
+	// the pairs of .keyvalue() handed through steps that leave them as they
+	// are (a filter on key or value, a subscript or wildcard that wraps, a
+	// zero-level descent): each pair that arrives is the pair that was made for
+	// its member, however many follow it (ids masked)
+	{
+		docs := []string{`{"a":2,"b":3,"c":0}`, `{"k":{"a":2,"b":3,"c":0},"m":{"x":[1,2],"y":{"z":1}}}`, `[{"a":2,"b":3},{"c":5,"d":1,"e":4}]`, `{"a":"x","b":null,"c":[3],"d":{"e":1}}`}
+		ptxts := []string{`$.keyvalue() ? (@.value > 1)`, `$.keyvalue() ? (@.key != "a")`, `$.keyvalue()[*]`, `$.keyvalue()[0]`, `$.keyvalue()[last]`, `$.keyvalue().**{0}`, `$.keyvalue() ? (exists(@.key))`, `$.keyvalue() ? (@.value > 1)[*]`,
+			`$.k.keyvalue() ? (@.value >= 0)`, `$.*.keyvalue() ? (@.key != "zz")`, `$[*].keyvalue() ? (@.value > 1)`, `$[*].keyvalue()[0 to last]`, `$.keyvalue() ? (@.value > 1).value`, `$.keyvalue() ? (@.key like_regex "^[a-c]$") ? (@.value != 0)`,
+			`$.keyvalue() ? (@.value.type() != "null")`, `$[0 to last].keyvalue()[*] ? (@.value > 0)`, `$.keyvalue().**{0 to 0} ? (@.key >= "a")`, `$.keyvalue()[0 to 0][*]`}
+		k := 0
+		for _, d := range docs {
+			for _, pt := range ptxts {
+				for _, lax := range []bool{true, false} {
+					k++
+					if !c.Mine(k) {
+						continue
+					}
+					p, err, pan := h.ParseSafe(map[bool]string{true: "", false: "strict "}[lax] + pt)
+					if err != nil || pan != "" {
+						continue
+					}
+					chain := gen.FromAST(p.AST).Root
+					if exposesOrder(&gen.Path{Root: chain}) {
+						continue // (.* over several members: the order is open)
+					}
+					nsteps := 0
+					for x := chain.Next; x != nil; x = x.Next {
+						nsteps++
+					}
+					for split := 0; split < nsteps; split++ {
+						for _, useNum := range []bool{false, true} {
+							checkSplit(c, &c09Case{lax: lax, chain: chain, split: split, doc: d, useNum: useNum, vars: stdVars1, spare: split%2 == 0, silent: split%3 == 2})
+						}
+					}
+				}
+			}
+		}
+	}
 	r := c.Rand("c09")
 	g := &gen.G{R: r, C: gen.DefaultCfg()}
 	g.C.Datetime = true
